@@ -766,4 +766,42 @@ theorem pyOr_eq_renewAmount (cfg : Cfg) (n : Option Nat) : pyOr n cfg.maxOps = r
   | none => rfl
   | some a => cases a <;> rfl
 
+/-! ### auto-renewing callback (`stepRe`) -/
+
+/-- a call that announces senescence leaves the lifecycle SENESCENT, on a path that holds the lock once or twice -/
+theorem sen_step (cfg : Cfg) (s : State) (op : Op) (h : (step cfg s op).evs.any Ev.isSenescence = true) :
+    (step cfg s op).st.phase = .senescent ∧
+    ((step cfg s op).lock = lkOnce ∨ (step cfg s op).lock = lkNested) := by
+  obtain ⟨ph, len, errs, ops, ren, rsn, st0, la, now, evn⟩ := s
+  cases op with
+  | tick c =>
+    simp only [step, tick] at h ⊢
+    cases ph <;> simp [enterSenescence, started, Ev.isSenescence] at h ⊢ <;>
+      (split at h <;> simp_all [Ev.isSenescence])
+  | err =>
+    simp only [step, recordError] at h ⊢
+    cases ph <;> simp_all [enterSenescence, Ev.isSenescence] <;> (repeat' split) <;> simp_all [Ev.isSenescence]
+  | timeouts =>
+    simp only [step, checkTimeouts] at h ⊢
+    cases ph <;> simp_all [enterSenescence, Ev.isSenescence] <;> (repeat' split) <;> simp_all [Ev.isSenescence]
+  | start => simp only [step, start] at h; split at h <;> simp [Ev.isSenescence] at h
+  | hb => simp [step, heartbeat] at h
+  | renew a r => simp only [step, renew] at h; (repeat' split at h) <;> simp [Ev.isSenescence] at h
+  | apo => simp only [step, apoptosis] at h; split at h <;> simp [Ev.isSenescence] at h
+  | term => simp [step, terminate, Ev.isSenescence] at h
+  | reset => simp [step, reset] at h
+  | adv us => simp [step] at h
+
+
+/-- `renew(None, True)` of a SENESCENT lifecycle: recovers when allowed, is refused before the lock otherwise -/
+theorem renew_of_senescent (cfg : Cfg) (t : State) (h : t.phase = .senescent) :
+    (cfg.allowRenew = true → (step cfg t (.renew none true)).st.phase = .active ∧
+      (step cfg t (.renew none true)).evs = [.change .senescent .active] ∧
+      (step cfg t (.renew none true)).lock = lkOnce) ∧
+    (cfg.allowRenew = false → (step cfg t (.renew none true)).lock = []) := by
+  obtain ⟨ph, len, errs, ops, ren, rsn, st0, la, now, evn⟩ := t
+  simp only at h
+  subst h
+  constructor <;> intro ha <;> simp [step, renew, ha, lkNone]
+
 end Operon.Telomere
